@@ -75,7 +75,15 @@ func runSolver(sd solverDef, query string, dir, tag string, timeoutS int) (strin
 	cmd.Run()
 	secs := time.Since(t0).Seconds()
 	text := out.String()
-	first := strings.TrimSpace(strings.SplitN(text, "\n", 2)[0])
+	first := ""
+	for _, ln := range strings.Split(text, "\n") {
+		ln = strings.TrimSpace(ln)
+		if ln == "" || strings.HasPrefix(ln, "WARNING") || strings.HasPrefix(ln, "(warning") {
+			continue
+		}
+		first = ln
+		break
+	}
 	switch first {
 	case "sat", "unsat", "unknown":
 		return first, text, secs
@@ -90,6 +98,10 @@ func runSolver(sd solverDef, query string, dir, tag string, timeoutS int) (strin
 
 // discharge decides one obligation with the solver portfolio.
 func discharge(o *Obligation, dir string, timeoutS int, idx int) {
+	if o.parts != nil {
+		dischargeParts(o, dir, timeoutS, idx)
+		return
+	}
 	q := o.query(true, o.isCover)
 	o.QuerySize = len(q)
 	tag := fmt.Sprintf("o%04d", idx)
@@ -140,6 +152,32 @@ func discharge(o *Obligation, dir string, timeoutS int, idx int) {
 			if a.res == want {
 				return
 			}
+		}
+	}
+}
+
+// dischargeParts: all parts must be unsat; the first part that is not decides the answer.
+func dischargeParts(o *Obligation, dir string, timeoutS int, idx int) {
+	o.Result, o.Solver = "unsat", solvers[0].name
+	var wg sync.WaitGroup
+	for k, p := range o.parts {
+		wg.Add(1)
+		go func(k int, p *Obligation) {
+			defer wg.Done()
+			discharge(p, dir, timeoutS, idx*100+k)
+		}(k, p)
+	}
+	wg.Wait()
+	for _, p := range o.parts {
+		o.Secs += p.Secs
+		o.QuerySize += p.QuerySize
+		if p.Result != "unsat" && o.Result == "unsat" {
+			o.Result, o.Solver, o.Model, o.Raw, o.ModelWeak = p.Result, p.Solver, p.Model, p.Raw, p.ModelWeak
+			o.prefixLen, o.goal = p.prefixLen, p.goal
+			o.exceptObl = p.exceptObl
+			o.failedPart = p
+		} else if p.Solver != solvers[0].name && o.Result == "unsat" {
+			o.Solver = p.Solver
 		}
 	}
 }
